@@ -111,6 +111,7 @@ def skeleton(term: str, marks) -> List[str]:
 
 
 SEND_MARKS = [(".ite (.not .enabled)", "enabled"), (".stamp", "stamp"), (".ifCan", "admission"), (".transmit", "transmit")]
+# `.ifCanWith` (the caller hands the admission test a size) is an admission step too: `.ifCan` is a prefix of it
 TX_MARKS = [(".size", "size"), (".setLoad (.add", "reserve"), (".deliver ", "deliver"), (".setLoad (.sub", "rollback")]
 ATX_MARKS = [(".setLoad (.add", "reserve"), (".deliverAll", "deliver")]
 
@@ -120,9 +121,10 @@ def _send_order(fn: ast.FunctionDef, who: str) -> List[str]:
     translator understands — an `else` branch, a positive test — gives the same order); what the body MEANS is `C18_gen_*_send_body`."""
     from harness.extract.link_body import Tr, Unrecognised
     try:
-        return skeleton(Tr().prog(_body(fn)), SEND_MARKS)
+        return skeleton(Tr(fn).prog(_body(fn)), SEND_MARKS)
     except Unrecognised as e:
-        raise ValueError(f"{who}.send_frame: {e}")
+        # named, not raised: only `C18_gen_orders` (and the body theorem of this method) fail, the other Gen.Link obligations stay tied
+        return [f"unreadable: {who}.send_frame: {e}".replace('"', "'")]
 
 
 def _send_order_textual(fn: ast.FunctionDef, who: str) -> List[str]:
@@ -814,17 +816,30 @@ def emit() -> str:
         # another shape: the comparison is read off the statement-by-statement translation (what the body MEANS — the `is_up` test
         # included — is `C18_gen_link_can_transmit_body`, which then has no proof if the meaning changed)
         from harness.extract.link_body import Tr as _Tr
-        term = _Tr().prog(_body(find_method(link, "can_transmit_frame")))
-        if ".le (.add .load .size) .cap" in term and ".lt " not in term:
+        try:
+            _fn = find_method(link, "can_transmit_frame")
+            term = _Tr(_fn).prog(_body(_fn))
+        except Exception as e:
+            term = f"unreadable {e}"
+        import re as _re
+        les = _re.findall(r"\.le \(\.add \.load (?:\.size|\.arg|\(\.var \d+\))\) \.cap", term)
+        lts = _re.findall(r"\.lt \(\.add \.load (?:\.size|\.arg|\(\.var \d+\))\) \.cap", term)
+        if les and ".lt " not in term:
             op_link = "≤"
-        elif ".lt (.add .load .size) .cap" in term and ".le " not in term:
+        elif lts and ".le " not in term:
             op_link = "<"
         else:
-            raise
+            # named, not raised: `C18_gen_admit` alone fails (with the body theorem), the rest of Gen.Link stays tied
+            op_link = "≤ cap ∧ False ∧ 0 ≤"
+
     op_air, key_admit = _air_can_transmit(air)
     is_up = _is_up(link)
     from harness.extract.link_body import Tr
-    tx = skeleton(Tr().prog(_body(find_method(link, "transmit_frame"))), TX_MARKS)
+    try:
+        _tf = find_method(link, "transmit_frame")
+        tx = skeleton(Tr(_tf).prog(_body(_tf)), TX_MARKS)
+    except Exception as e:
+        tx = [f"unreadable: Link.transmit_frame: {e}".replace('"', "'")]
     wired = _send_order(find_method(class_def(base, "WiredNetworkInterface"), "send_frame"), "WiredNetworkInterface")
     sw = _send_order(find_method(class_def(parse(SWITCH), "SwitchPort"), "send_frame"), "SwitchPort")
     wl = _send_order(find_method(class_def(air_t, "WirelessNetworkInterface"), "send_frame"), "WirelessNetworkInterface")
